@@ -136,6 +136,7 @@ func decodeContentParameter(param *openapi3.Parameter, input *RequestValidationI
 		var cookie *http.Cookie
 		if cookie, err = input.Request.Cookie(param.Name); err == http.ErrNoCookie {
 			found = false
+			err = nil // an absent cookie is not an error: required is checked by ValidateParameter
 		} else if err != nil {
 			return
 		} else {
